@@ -464,7 +464,7 @@ theorem evalArguments_replays (cfg : Cfg) (h0 hf : HState) (argv : List Word) (h
       rw [e1]; simp only [Res.bind_ok]; exact e2
 
 /-- the destination assignment of a scalar argument leaves the cardinality counter alone -/
-theorem assignDest_cnt {d : ArgDef} {st st' : ArgSt} {v : Word} (hk : d.kind ≠ .vecInt)
+theorem assignDest_keeps_cnt {d : ArgDef} {st st' : ArgSt} {v : Word} (hk : d.kind ≠ .vecInt)
     (h : assignDest d st v = .ok st') : st'.cnt = st.cnt := by
   unfold assignDest at h
   split at h
@@ -511,7 +511,7 @@ theorem assignValue_fromSrc_cnt {h h' : HState} {i : Nat} {d : ArgDef} {v : Word
         rw [h4] at he
         simp only [Res.bind_ok, Res.pure_eq, Res.ok.injEq] at he
         subst he
-        have hcnt : st'.cnt = (h.args.getD i default).cnt := assignDest_cnt hk h4
+        have hcnt : st'.cnt = (h.args.getD i default).cnt := assignDest_keeps_cnt hk h4
         show ((h.args.set i st').getD i default).cnt = _
         simp [hlt, hcnt]
 
